@@ -5,7 +5,9 @@
 (* had (assoc), what the scripted key-exchange peer did (ke), the requests *)
 (* the harness saw on the wire (reqs), every datagram it put into the      *)
 (* client's socket during the call (ds: abstract datagram + whether the    *)
-(* outstanding request was interleaved) and how the call returned (ret).   *)
+(* outstanding request was interleaved) and how the call returned (ret:    *)
+(* ok = a measurement, error, empty = no error and no measurement - zero   *)
+(* time, what MeasureClockOffsetSCION returns when every attempt failed).  *)
 (* NTS is enabled in the client's configuration throughout.                *)
 (* The per-datagram records of the same run (ev = "dgram") are judged by   *)
 (* NtpAcceptTrace.                                                         *)
@@ -38,6 +40,6 @@ SRequest == l > 0 =>
   /\ \A i \in 1 .. Len(R.reqs) : R.reqs[i] = "nts"
 \*   a failed exchange ends the call with an error; no exchange while cookies are cached
 SOutcome == l > 0 =>
-  /\ (R.ke \in KeFail /\ R.assoc # "cached") => R.ret = "error"
+  /\ (R.ke \in KeFail /\ R.assoc # "cached") => R.ret \in {"error", "empty"}
   /\ R.assoc = "cached" => R.nke = 0
 =============================================================================
